@@ -56,7 +56,7 @@ theorem finish_wp (n : Node) (ks : List Node) (h : KidsWP n.id ks) :
 def ElemOnly : SeqOp → Prop
   | .append (.elem e) | .insert _ (.elem e) | .setitem _ (.elem e) => wp e = true
   | .extend as | .iadd as | .setslice _ as => ∀ a ∈ as, ∃ e, a = .elem e ∧ wp e = true
-  | .append (.plain _) | .insert _ (.plain _) | .setitem _ (.plain _) | .set _ | .setDefault => False
+  | .append (.plain _) | .insert _ (.plain _) | .setitem _ (.plain _) | .set _ | .setDefault | .imul _ => False
   | _ => True
 
 theorem appendEl_wp (n e : Node) (hn : KidsWP n.id n.kids) (he : wp e = true) (next : Nat) :
@@ -245,6 +245,8 @@ theorem seqStep_wp (n : Node) (hw : wp n = true) (op : SeqOp) (hop : ElemOnly op
         · exact hw
         · exact fin _ (kw_sub hK (fun x hx => List.mem_of_mem_eraseIdx hx))
     | reverse => exact fin _ (kw_sub hK (fun x hx => List.mem_reverse.mp hx))
+    | clear => rw [wp_withKids]; intro x hx; cases hx
+    | imul c => exact absurd hop (by simp [ElemOnly])
     | sort k r =>
       dsimp only
       split
